@@ -26,10 +26,10 @@ RULE = ('cases = generated graphs of 1-12 persistent nodes (Node, PersistentMapp
         'distinct by case hash')
 ASSUMPTIONS = ['a weak reference to a new object causes it to be stored (documented in ObjectWriter.persistent_id)',
                'cross-database targets are committed in their own database before they are referenced']
-BUDGET = {'quick': {'examples': 1500, 'workers': 8},
+BUDGET = {'quick': {'examples': 4000, 'workers': 8},
           'thorough': {'examples': 30000, 'workers': 16}}
 
-KINDS = ['N', 'N', 'M', 'L', 'A', 'X']
+KINDS = ['N', 'N', 'M', 'L', 'A', 'X', 'XA', 'X2']
 WRAPS = ['direct', 'tuple', 'list', 'dict', 'nested']
 OID_PATTERNS = [b'abcdefgh', b'AAAAAAAA', b'\x7f' * 8, b'\x80' * 8, b'\xfe' + b'\xff' * 7, b'\x00\x00\x00\x00\x00\x00\x01\x00',
                 b'12345678', b'\x00' * 7 + b'\x01', b' ' * 8, b'\n' * 8, b'q\x00q\x00q\x00q\x00', b'\x00abcdefg']
@@ -58,18 +58,50 @@ def strategy(tier):
 
 
 MISSING_MOD = 'verif_missing_mod'
+MISSING_MOD2 = 'verif_missing_mod2'
 
 
 def install_missing_module():
+    """classes whose modules are removed before loading: Gone, GoneNA (with constructor arguments) in one module, and
+    another class that is also called Gone in a second module; returns a namespace"""
     import persistent
     mod = types.ModuleType(MISSING_MOD)
+    mod2 = types.ModuleType(MISSING_MOD2)
 
     class Gone(persistent.Persistent):
         pass
     Gone.__module__ = MISSING_MOD
     mod.Gone = Gone
+
+    class GoneNA(persistent.Persistent):
+        def __new__(cls, tag):
+            return persistent.Persistent.__new__(cls)
+
+        def __init__(self, tag):
+            self.tag = tag
+
+        def __getnewargs__(self):
+            return (self.tag,)
+    GoneNA.__module__ = MISSING_MOD
+    GoneNA.__qualname__ = 'GoneNA'
+    mod.GoneNA = GoneNA
+    Gone2 = type('Gone', (persistent.Persistent,), {})
+    Gone2.__module__ = MISSING_MOD2
+    mod2.Gone = Gone2
     sys.modules[MISSING_MOD] = mod
-    return Gone
+    sys.modules[MISSING_MOD2] = mod2
+    ns = types.SimpleNamespace(Gone=Gone, GoneNA=GoneNA, Gone2=Gone2, mod=mod, mod2=mod2)
+    return ns
+
+
+def remove_missing_modules():
+    sys.modules.pop(MISSING_MOD, None)
+    sys.modules.pop(MISSING_MOD2, None)
+
+
+def restore_missing_modules(ns):
+    sys.modules[MISSING_MOD] = ns.mod
+    sys.modules[MISSING_MOD2] = ns.mod2
 
 
 def make_node(kind, mark, Gone):
@@ -84,7 +116,13 @@ def make_node(kind, mark, Gone):
         o = NodeNA('na')
         o.payload = payload
     elif kind == 'X':
-        o = Gone()
+        o = Gone.Gone()
+        o.payload = payload
+    elif kind == 'XA':
+        o = Gone.GoneNA('na')
+        o.payload = payload
+    elif kind == 'X2':
+        o = Gone.Gone2()
         o.payload = payload
     elif kind == 'M':
         o = PersistentMapping()
@@ -258,7 +296,7 @@ def execute(case):
         if any(all(32 <= c < 127 for c in o) for o in oid_of.values()):
             features.add('ascii-oid')
         # (3) no embedded state, (4) reference extraction
-        del sys.modules[MISSING_MOD]       # extraction must not need the classes
+        remove_missing_modules()       # extraction must not need the classes
         for i, oid in oid_of.items():
             data = stored[oid]
             for j in oid_of:
@@ -303,13 +341,23 @@ def execute(case):
                 if mark != 'MARK%03d' % i:
                     out.fail((PROPERTY, 'round-trip', 'wrong-object'), 'oid of node %d loads as %s' % (i, mark))
                     return finish(out, features)
-                if spec[i]['kind'] == 'X':
-                    features.add('missing-class')
+                if spec[i]['kind'] in ('X', 'XA', 'X2'):
+                    features.add({'X': 'missing-class', 'XA': 'missing-class-with-newargs', 'X2': 'missing-class-same-name'}[spec[i]['kind']])
                     if 'Broken' not in type(o).__mro__[1].__name__ and not hasattr(o, '__Broken_state__'):
                         out.fail((PROPERTY, 'round-trip', 'missing-class-not-broken'), 'node %d: %r' % (i, type(o)))
                         return finish(out, features)
-            sys.modules[MISSING_MOD] = types.ModuleType(MISSING_MOD)
-            sys.modules[MISSING_MOD].Gone = Gone
+                    # the placeholder stands for THAT class (module and name), and keeps the constructor arguments
+                    want = {'X': (MISSING_MOD, 'Gone'), 'XA': (MISSING_MOD, 'GoneNA'), 'X2': (MISSING_MOD2, 'Gone')}[spec[i]['kind']]
+                    if (type(o).__module__, type(o).__name__) != want:
+                        out.fail((PROPERTY, 'round-trip', 'placeholder-of-another-class'),
+                                 'node %d of missing class %s.%s loads as placeholder for %s.%s' % (
+                                     (i,) + want + (type(o).__module__, type(o).__name__)))
+                        return finish(out, features)
+                    if spec[i]['kind'] == 'XA' and getattr(o, '__Broken_newargs__', None) != ('na',):
+                        out.fail((PROPERTY, 'round-trip', 'placeholder-lost-newargs'),
+                                 'node %d: placeholder has constructor arguments %r' % (i, getattr(o, '__Broken_newargs__', None)))
+                        return finish(out, features)
+            restore_missing_modules(Gone)
             for i in sorted(expected):
                 exp = canon(payload_of(objs[i])['items'], visit_orig)
                 if seen['MARK%03d' % i] != exp:
@@ -326,7 +374,7 @@ def execute(case):
         if not out.failures:
             export_import(case, conn, tm, db1, spec, objs, strong, expected, oid_of, out, features)
     finally:
-        sys.modules.pop(MISSING_MOD, None)
+        remove_missing_modules()
         try:
             tm.abort()
             db1.close()
